@@ -1,3 +1,3 @@
 From Coq Require Import ZArith Extraction ExtrOcamlBasic.
 From CyVerif Require Import Lib.CInt Model.M_IntPow.
-Extraction "../ocaml/gen/m_intpow.ml" ex_keep int_pow pow2 pow2_value wrap in_rangeb.
+Extraction "../ocaml/gen/m_intpow.ml" ex_keep int_pow int_pow_ck pow2 pow2_value wrap in_rangeb.
